@@ -54,6 +54,7 @@ PSEGS = ["Ã©", "cafÃ©", "alice;v=2", ";x", "a;", "cafe\u0301", "caf\u00e9", 
 
 def make_table(rng):
     routes = []
+    pfx = rng.choice(["p", "p", "p", "_p", "_", "item_"])  # placeholder names are the application's choice (a leading underscore included)
     own_names = rng.random() < 0.4  # every route names its placeholders differently: what one route binds must not show up in another's parameters
     for ri in range(rng.randrange(1, 5)):
         depth = rng.choice([1, 1, 2, 2, 3])
@@ -61,7 +62,7 @@ def make_table(rng):
         for d in range(depth):
             t = rng.choice(SEG_TEMPLATES)
             sfx = "_r%d" % ri if own_names else ""
-            segs.append(t.replace("{N", "{p%d%s" % (d, sfx)).replace("{M", "{q%d%s" % (d, sfx)))
+            segs.append(t.replace("{N", "{%s%d%s" % (pfx, d, sfx)).replace("{M", "{q%d%s" % (d, sfx)))
         r = "/" + "/".join(segs)
         if rng.random() < 0.1:
             r = r + "/"
@@ -152,9 +153,10 @@ class Table:
         self.asgi = asgi.Router(*[(r, asgi_endpoint(i)) for i, r in enumerate(routes)])
 
 
-def dispatch_wsgi(table, path, stale=False, root=""):
+def dispatch_wsgi(table, path, stale=False, root="", raw_latin1=False):
     table.rec.hit = None
-    req = drivers.Req(path=path.encode("utf-8"), root=root.encode("utf-8"))
+    # raw_latin1: a client that does not use UTF-8 sent the path's characters as single bytes (PEP 3333 hands them over as they are)
+    req = drivers.Req(path=path.encode("latin-1" if raw_latin1 else "utf-8"), root=root.encode("utf-8"))
     env = drivers.to_environ(req)
     if stale:  # e.g. left behind by an outer router
         env["PATH_PARAMS"] = {"stale": "outer"}
@@ -292,6 +294,13 @@ def run_pair(ctx, table, path, stale=False, root=""):
         seen, hit, status, exc = fn(table, path, stale, root)
         ctx.mon(f"{iface}-dispatch")
         nt = judge(ctx, iface, routes, seen, hit, status, exc, dict(case, iface=iface)) or nt
+        if iface == "wsgi" and not path.isascii() and all(ord(c) < 256 for c in path):
+            try:
+                path.encode("latin-1").decode("utf-8")
+            except UnicodeDecodeError:
+                seen, hit, status, exc = dispatch_wsgi(table, path, stale, root, raw_latin1=True)
+                ctx.mon("wsgi-raw-latin1-path")
+                judge(ctx, iface, routes, path, hit, status, exc, dict(case, iface=iface, raw_latin1_path=True))
     return nt
 
 
